@@ -44,7 +44,7 @@ func (f *Sqrt) Call(s *slip.Scope, args slip.List, depth int) (result slip.Objec
 	switch ta := args[0].(type) {
 	case slip.Fixnum:
 		if ta < 0 {
-			result = slip.Complex(complex(0.0, math.Sqrt(float64(-ta))))
+			result = slip.Complex(complex(0.0, math.Sqrt(-float64(ta))))
 		} else {
 			result = slip.DoubleFloat(math.Sqrt(float64(ta)))
 		}
